@@ -155,7 +155,7 @@ fn one_corruption(ctx: &mut Ctx) {
     let kind: &str = *gen::t(|t| {
         t.pick(&[
             "bit-flip", "bit-flip-header", "bit-flip-payload", "overwrite", "payload-swap", "trailing-garbage", "truncate", "header-tamper-recomputed", "magic-swap-and-header-change", "truncate-at-chunk-boundary",
-            "server-wrong-bytes", "server-error-page", "server-short-body", "verify-header-wrong", "verify-header-right", "header-change-and-checksum-cut-off", "server-stall-with-timeout",
+            "server-wrong-bytes", "server-error-page", "server-short-body", "verify-header-wrong", "verify-header-right", "header-change-and-checksum-cut-off", "server-stall-with-timeout", "server-switches-archive", "header-tamper-recomputed",
         ])
     });
     let mut what = String::new();
@@ -245,7 +245,7 @@ fn one_corruption(ctx: &mut Ctx) {
         "header-tamper-recomputed" => {
             // a structurally valid header with a fresh checksum: only --verify-header can tell
             let mut d = ra.dict.clone();
-            match gen::draw(4) {
+            match gen::draw(6) {
                 0 if d.rebuild_order.len() >= 2 => {
                     let l = d.rebuild_order.len();
                     d.rebuild_order.swap(0, l - 1);
@@ -255,6 +255,9 @@ fn one_corruption(ctx: &mut Ctx) {
                 }
                 1 => d.source_checksum[0] ^= 1,
                 2 => d.application_version.push('x'),
+                // the pinned value planted in the one checksum field nobody verifies
+                3 => d.source_checksum = ra.header_checksum.clone(),
+                4 => d.source_checksum = Vec::new(),
                 _ => d.source_total_size += 1,
             }
             let dict = encode_dict(&d, &EncodeStyle::default());
@@ -294,6 +297,29 @@ fn one_corruption(ctx: &mut Ctx) {
                 extra.verify_header = Some(gen::hex(&ra.header_checksum));
             }
             what = format!("header re-encoded with one changed field, file cut {} bytes before the end of the header (inside the stored header checksum)", cut);
+        }
+        "server-switches-archive" => {
+            // --verify-header pins archive A. The server answers the first n requests from A and
+            // everything after from B, a complete and valid archive of other content (A's header
+            // re-encoded with the first and last chunk exchanged, fresh checksum). Success is
+            // only acceptable with A's source in the output.
+            if !f.http || !f.level2 || ra.dict.rebuild_order.len() < 2 {
+                return;
+            }
+            let mut d = ra.dict.clone();
+            let l = d.rebuild_order.len();
+            d.rebuild_order.swap(0, l - 1);
+            if d.rebuild_order == ra.dict.rebuild_order {
+                return;
+            }
+            // keep the declared size consistent with the exchanged order (same multiset of chunks)
+            let dict = encode_dict(&d, &EncodeStyle::default());
+            let mut other = build_header(MAGIC, &dict, None);
+            other.extend_from_slice(&a[ra.header_len..]);
+            let n = *gen::t(|t| t.pick(&[2usize, 2, 2, 1, 3, 4]));
+            extra.switch_archive_after = Some((n, other));
+            extra.verify_header = Some(gen::hex(&ra.header_checksum));
+            what = format!("server serves the pinned archive for {} requests, then another valid archive (first and last chunk exchanged)", n);
         }
         "server-stall-with-timeout" => {
             // the server goes silent in the middle of a chunk transfer; --http-timeout ends the
@@ -356,6 +382,7 @@ fn one_corruption(ctx: &mut Ctx) {
         "server-wrong-bytes" | "server-error-page" | "server-short-body" => "fault:LyingServer",
         "header-change-and-checksum-cut-off" => "fault:HeaderChangeChecksumCutOff",
         "server-stall-with-timeout" => "fault:ServerStall",
+        "server-switches-archive" => "fault:ServerSwitchesArchive",
         _ => "verify-header-option",
     });
     let src = &f.made.source;
